@@ -349,12 +349,20 @@ def run(ctx):
         wt = tokens(wterm)
         payload = wt[1][1] if len(wt) > 1 and wt[1][0] == "R" else None
         exprs = compress_exprs(wf_, payload)
+        # displays unpacked on the spot: f(x, *()) is f(x), f(x, *(a,)) is f(x, a)
+        import re as _re4
+        exprs = [_re4.sub(r"\*\(([^()*]+?),?\)", r"\1", _re4.sub(r",\s*\*\(\)", "", e_)) for e_ in exprs]
         rterm = block_reader_shape(a, rf_)
         rets = [t[1] for t in rterm if t[0] == "ret"]
         wpat, rpat = spec.CODEC_PAIRS.get(k, (None, None))
         ok_w = _match_compress(k, exprs)
         ok_r = len(rets) == 1 and _match_decompress(k, rets[0])
-        ctx.check("C04.R4", f"codec {k}: writer compresses with the specified function", ok_w, wf_.where(), f"{wf_.qualname}: payload = {exprs}", f"payload of codec {k} must be {wpat or 'the block bytes themselves'}")
+        if not ok_w and any(("*" + nm) in e_ or ("**" + nm) in e_ for e_ in exprs for nm in (set(__import__("re").findall(r"\*\*?([A-Za-z_]\w*)", e_)))):
+            # arguments handed over through a local tuple / dict (`f(x, *level_args)`): which arguments reach the call is
+            # not visible in the expression
+            ctx.unrecognised("C04.R4", f"codec {k}: writer compresses with the specified function", wf_.where(), f"{wf_.qualname}: arguments passed through an unpacked local: {exprs}")
+        else:
+            ctx.check("C04.R4", f"codec {k}: writer compresses with the specified function", ok_w, wf_.where(), f"{wf_.qualname}: payload = {exprs}", f"payload of codec {k} must be {wpat or 'the block bytes themselves'}")
         ctx.check("C04.R4", f"codec {k}: reader decompresses with the inverse", ok_r, rf_.where(), f"{rf_.qualname}: returns {rets}", f"reader of codec {k} must return BytesIO({rpat or 'the payload'}(payload))")
 
     # ---- shared ----
